@@ -218,6 +218,26 @@ Fixpoint srun (t : sst) (h : list op) : list obs :=
   | o :: r => let '(t', ob) := sstep t o in ob :: srun t' r
   end.
 
+(* what one call delivers: the answers to the `Next i` steps of a history, and the first n answers a snapshot gives *)
+Definition touches (i : N) (o : op) : bool :=
+  match o with Open j _ _ => j =? i | Close j => j =? i | _ => false end.
+Definition quiet (i : N) (h : list op) : bool := forallb (fun o => negb (touches i o)) h.
+Definition is_next (i : N) (o : op) : bool := match o with Next j => j =? i | _ => false end.
+Definition count_next (i : N) (h : list op) : nat := List.length (filter (is_next i) h).
+
+Fixpoint answers (i : N) (h : list op) (obs : list obs) : list (option N) :=
+  match h, obs with
+  | o :: r, ob :: r' =>
+      if is_next i o then (match ob with OVal v => v | _ => None end) :: answers i r r' else answers i r r'
+  | _, _ => []
+  end.
+
+Fixpoint deliver (snap : list N) (n : nat) : list (option N) :=
+  match n with
+  | O => []
+  | S m => match snap with [] => None :: deliver [] m | u :: r => Some u :: deliver r m end
+  end.
+
 (* the abstraction: what a call started now would see, and what every open call still has to deliver *)
 Definition payload (c : clause) : N * key := (uid c, ckey c).
 Definition living (s : mst) (p : N) : list (N * key) := map payload (filter (alive (clock s)) (chains s p)).
@@ -228,11 +248,17 @@ Definition remaining (s : mst) (i : N) : list N :=
   end.
 Definition abs (s : mst) : sst := mkS (living s) (nextu s) (remaining s) (rits s).
 
-(* well-formed machine states (every state reachable from a loaded program is one, see Proofs.v) *)
+(* well-formed machine states (every state reachable from a loaded program is one, see Proofs.v):
+   stamps lie in the past, uids are below the allocation counter and unique within a chain, the clock value of
+   every open call is not in the future *)
+Definition old (clk : N) (c : clause) : Prop :=
+  birth c < clk /\ (forall d, death c = Some d -> d < clk).
+
 Definition wf (s : mst) : Prop :=
-  (forall p c, In c (chains s p) -> birth c < clock s /\ (forall d, death c = Some d -> d < clock s) /\ uid c < nextu s) /\
-  (forall i it, its s i = Some it -> icc it <= clock s /\ ipos it < nextu s) /\
-  (forall p, NoDup (map uid (chains s p))).
+  (forall p, Forall (old (clock s)) (chains s p)) /\
+  (forall p, Forall (fun u => u < nextu s) (map uid (chains s p))) /\
+  (forall p, NoDup (map uid (chains s p))) /\
+  (forall i it, its s i = Some it -> icc it <= clock s /\ ipos it < nextu s).
 
 (* ------------------------------------------------------------------ initial states *)
 (* consulting the clauses of a dynamic predicate: all get birth := clock, then the clock ticks (compile.rs) *)
@@ -261,7 +287,7 @@ Inductive goal :=
 Record xst := mkX {
   xm : mst;
   xlog : list (N * obs);      (* newest first *)
-  xops : list op;             (* the history performed so far, newest first *)
+  xops : list (N * op);       (* the history performed so far (with the goal index of every step), newest first *)
   xid : N;                    (* next unused iterator id *)
   xout : bool                 (* fuel ran out *)
 }.
@@ -269,9 +295,16 @@ Record xst := mkX {
 Definition logged (o : op) : bool :=
   match o with Open _ _ _ | ROpen _ _ _ | Close _ => false | _ => true end.
 
+(* the log entries a history produces: one (goal index, observation) per logged step *)
+Fixpoint filter_log (kops : list (N * op)) (obs : list obs) : list (N * obs) :=
+  match kops, obs with
+  | (k, o) :: r, ob :: r' => if logged o then (k, ob) :: filter_log r r' else filter_log r r'
+  | _, _ => []
+  end.
+
 Definition xdo (x : xst) (k : N) (o : op) : xst * obs :=
   let '(m', ob) := mstep (xm x) o in
-  (mkX m' (if logged o then (k, ob) :: xlog x else xlog x) (o :: xops x) (xid x) (xout x), ob).
+  (mkX m' (if logged o then (k, ob) :: xlog x else xlog x) ((k, o) :: xops x) (xid x) (xout x), ob).
 
 Definition xfresh (x : xst) : xst := mkX (xm x) (xlog x) (xops x) (N.succ (xid x)) (xout x).
 
@@ -346,3 +379,91 @@ Definition model_log (l0 l1 : list (N * key)) (nu : N) (gs : list goal) : list (
 Definition check_run (l0 l1 : list (N * key)) (nu : N) (gs : list goal) (impl_log : list (N * obs)) : bool :=
   let x := run_driver (init_state l0 l1 nu) gs driver_fuel in
   init_ok l0 l1 nu && negb (xout x) && log_eqb (rev (xlog x)) impl_log.
+
+(* ------------------------------------------------------------------ compact input channel
+   The correspondence check passes a driver and the implementation's log as one string of printable
+   characters (Coq elaborates a string literal much faster than a list literal).  A number v < 90 is the
+   character with code 35+v; larger numbers are "}" followed by two base-90 digits.  The token stream is
+     nu  n0 (uid key)*n0  n1 (uid key)*n1  ng (kind p key)*ng  <encoded log of the implementation>
+   with key 0 = variable, k+1 = constant k; the log is compared in encoded form (enc_log). *)
+From Coq Require String Ascii.
+Import String Ascii.
+Fixpoint bytes (s : string) : list N :=
+  match s with EmptyString => [] | String c r => N_of_ascii c :: bytes r end.
+
+Fixpoint toks (l : list N) : list N :=
+  match l with
+  | [] => []
+  | b :: r =>
+      if b =? 125 then
+        match r with
+        | h :: lo :: r' => ((h - 35) * 90 + (lo - 35)) :: toks r'
+        | _ => []
+        end
+      else (b - 35) :: toks r
+  end.
+
+Definition dec_key (n : N) : key := if n =? 0 then None else Some (Z.of_N (n - 1)).
+
+Fixpoint take_clauses (n : nat) (l : list N) : list (N * key) * list N :=
+  match n with
+  | O => ([], l)
+  | S m =>
+      match l with
+      | u :: k :: r => let '(xs, r') := take_clauses m r in ((u, dec_key k) :: xs, r')
+      | _ => ([], [])
+      end
+  end.
+
+Definition dec_goal (c p k : N) : goal :=
+  let q := dec_key k in
+  if c =? 0 then GGen p q else
+  if c =? 1 then GOnce p q else
+  if c =? 2 then GRetractGen p q else
+  if c =? 3 then GOp (Assertz p q) else
+  if c =? 4 then GOp (Asserta p q) else
+  if c =? 5 then GOp (RetractFirst p q) else
+  if c =? 6 then GOp (RetractAll p q) else GOp (Listing p q).
+
+Fixpoint take_goals (n : nat) (l : list N) : list goal * list N :=
+  match n with
+  | O => ([], l)
+  | S m =>
+      match l with
+      | c :: p :: k :: r => let '(gs, r') := take_goals m r in (dec_goal c p k :: gs, r')
+      | _ => ([], [])
+      end
+  end.
+
+Definition enc_obs (o : obs) : list N :=
+  match o with
+  | OVal None => [0]
+  | OVal (Some u) => [1; u]
+  | ONone => [2]
+  | OList us => 3 :: N.of_nat (List.length us) :: us
+  end.
+
+Fixpoint enc_log (l : list (N * obs)) : list N :=
+  match l with
+  | [] => []
+  | (k, o) :: r => k :: enc_obs o ++ enc_log r
+  end.
+
+Definition check_s (s : string) : bool :=
+  match toks (bytes s) with
+  | nu :: n0 :: r =>
+      let '(l0, r1) := take_clauses (N.to_nat n0) r in
+      match r1 with
+      | n1 :: r2 =>
+          let '(l1, r3) := take_clauses (N.to_nat n1) r2 in
+          match r3 with
+          | ng :: r4 =>
+              let '(gs, r5) := take_goals (N.to_nat ng) r4 in
+              let x := run_driver (init_state l0 l1 nu) gs driver_fuel in
+              init_ok l0 l1 nu && negb (xout x) && listN_eqb (enc_log (rev (xlog x))) r5
+          | _ => false
+          end
+      | _ => false
+      end
+  | _ => false
+  end.
